@@ -292,19 +292,19 @@ def stack(
     #             data[name] = (cal.gradient * data[name]) + cal.intercept
 
     if orientation == "horizontal":
-        max_y = max(d.shape[1] for d in datas)
+        max_y = max(d.shape[0] for d in datas)
         stack = np.concatenate(
             [
-                np.pad(d, ((0, max_y - d.shape[1]), (0, 0)), constant_values=pad)
+                np.pad(d, ((0, max_y - d.shape[0]), (0, 0)), constant_values=pad)
                 for d in datas
             ],
             axis=1,
         )
     elif orientation == "vertical":
-        max_x = max(d.shape[0] for d in datas)
+        max_x = max(d.shape[1] for d in datas)
         stack = np.concatenate(
             [
-                np.pad(d, ((0, 0), (0, max_x - d.shape[0])), constant_values=pad)
+                np.pad(d, ((0, 0), (0, max_x - d.shape[1])), constant_values=pad)
                 for d in datas
             ],
             axis=0,
